@@ -8873,6 +8873,23 @@ impl Display for IntrospectionResult {
     }
 }
 
+#[cfg(feature = "avl_savefile_verif")]
+impl IntrospectionResult {
+    /// Verification hook: build a result from frames exactly as `Introspector::do_introspect`
+    /// does (the total length is the sum of the frame lengths).
+    #[doc(hidden)]
+    pub fn verif_from_frames(frames: Vec<IntrospectionFrame>) -> IntrospectionResult {
+        let mut total = 0;
+        for frame in &frames {
+            total += frame.keyvals.len();
+        }
+        IntrospectionResult {
+            frames,
+            cached_total_len: total,
+        }
+    }
+}
+
 impl IntrospectionResult {
     /// Indexes the result with a single index, which will reach all levels in the tree.
     /// Printing all elements in the order returned here, with indentation equal to
